@@ -63,11 +63,18 @@ impl EventFormatter for JsonLinesFormatter {
     if !event.fields.is_empty() {
       if self.config.flatten_fields {
         // Flatten fields into the top-level map
+        // A custom field whose name collides with a key written above (or with "fields" itself) keeps its
+        // value under the nested "fields" object instead of being dropped.
+        let mut collided = serde_json::Map::new();
         for (key, log_value) in &event.fields {
-          // Avoid overwriting core fields if a custom field has the same name
-          if !json_map.contains_key(key) {
+          if json_map.contains_key(key) || key == "fields" {
+            collided.insert(key.clone(), Self::log_value_to_json_value(log_value));
+          } else {
             json_map.insert(key.clone(), Self::log_value_to_json_value(log_value));
           }
+        }
+        if !collided.is_empty() {
+          json_map.insert("fields".to_string(), Value::Object(collided));
         }
       } else {
         // Nest fields under the "fields" key
